@@ -56,7 +56,9 @@ func InitGenesis(ctx sdk.Ctx, keeper keeper.Keeper, supplyKeeper types.AuthKeepe
 			keeper.SetUnstakingValidator(ctx, validator)
 		}
 		// if the validator is staked then add their tokens to the staked pool
-		if validator.IsStaked() {
+		// the staked pool backs the stake of staked AND unstaking validators (an unstaking one is paid
+		// out of the pool at maturity)
+		if validator.IsStaked() || validator.IsUnstaking() {
 			stakedTokens = stakedTokens.Add(validator.GetTokens())
 		}
 	}
